@@ -52,7 +52,38 @@ def _hexs(v):
     return bytes(v).hex()
 
 
+def _replay(path):
+    """bin/verif check C27 --replay replays/C27-<key>.json : re-execute the recorded call on the tree under test."""
+    o = json.load(open(path))["replay"]
+    seal, call = dict(o["sealed"]), dict(o["call"])
+    seal["id"] = 1
+    call["seal"] = 1
+    with vf.scratch() as sd:
+        cin, ss = os.path.join(sd, "calls.ndjson"), os.path.join(sd, "seals.ndjson")
+        vf.write_ndjson(cin, [call])
+        vf.write_ndjson(ss, [seal])
+        ov = vf.make_overlay(sd, HARNESS)
+        binp = vf.go_test_compile(ov, "./" + PKG + "/", os.path.join(sd, "c27.test"))
+        env = dict(os.environ)
+        env.update(VERIF_IN=cin, VERIF_OUT=sd)
+        p = vf.run([binp, "-test.run", "^TestVerifC27Replay$"], cwd=sd, env=env, timeout=600)
+        io_path = os.path.join(sd, "io.ndjson")
+        if p.returncode != 0 or not os.path.exists(io_path):
+            raise vf.NoVerdict("replay harness failed\n%s\n%s" % (p.stdout[-2000:], p.stderr[-2000:]))
+        rep = _judge(vf.Check(PROP), sd, io_path, ss, "CryptoEnvelope_Trace.cfg", None, 600)
+        rec = vf.read_ndjson(io_path)[0]
+        print("replayed %s: ok=%s err=%s text=%r" % (API_FN[rec["api"]], rec["ok"], rec["err"], bytes(rec["got"])))
+        if rep["bad"]:
+            print("VIOLATION property=%s replay=%s" % (PROP, path))
+            print("  key=%s" % rep["bad"][0]["key"])
+            return 1
+        print("replay: the contract holds for this call on %s" % vf.REPO)
+        return 0
+
+
 def run():
+    if os.environ.get("VERIF_REPLAY"):
+        return _replay(os.environ["VERIF_REPLAY"])
     thorough = vf.TIER == "thorough"
     tier = "thorough" if thorough else "quick"
     chk = vf.Check(PROP)
@@ -97,14 +128,14 @@ def run():
         env = dict(os.environ)
         env.update(VERIF_IN=pf, VERIF_OUT=sd, VERIF_TIER=tier, VERIF_SEED=str(vf.SEED),
                    VERIF_WORKERS=os.environ.get("VERIF_WORKERS", "8" if thorough else "6"))
-        p = vf.run([binp, "-test.run", "^TestVerifC27Envelope$", "-test.timeout", "3000s"], cwd=sd, env=env, timeout=3100)
+        p = vf.run([binp, "-test.run", "^TestVerifC27Envelope$", "-test.timeout", "14000s"], cwd=sd, env=env, timeout=14100)
         io_path, seals_path = os.path.join(sd, "io.ndjson"), os.path.join(sd, "seals.ndjson")
         if p.returncode != 0 or not os.path.exists(io_path):
             raise vf.NoVerdict("harness failed (rc=%s)\n%s\n%s" % (p.returncode, p.stdout[-3000:], p.stderr[-2000:]))
         chk.cov["harness_wall_s"] = round(p.wall, 1)
         # 5. the contract
         rep = _judge(chk, sd, io_path, seals_path, "CryptoEnvelope_Trace_thorough.cfg" if thorough else "CryptoEnvelope_Trace.cfg",
-                     "contract over recorded calls (F)", 3000)
+                     "contract over recorded calls (F)", 7200)
         n = int(rep["n"])
         if not rep["wellformed"]:
             raise vf.NoVerdict("a sealed text does not decode under its own format (harness/spec mismatch)")
